@@ -131,7 +131,8 @@ def make_hoomd(recipe):
     if ndim == 2:
         L[2] = 1.0
     frames = []
-    typeid = rng.integers(0, K, size=N).astype(np.uint32)
+    # gsd itself delivers uint32; a duck-typed frame may carry any integer type
+    typeid = rng.integers(0, K, size=N).astype(np.dtype(recipe.get("tid_dtype", "uint32")))
     step = int(rng.integers(0, 1000))
     for _t in range(T):
         n_t = N
@@ -402,14 +403,33 @@ class World(WorldBase):
         ok = [n for n in sorted(self.readers) if self._reread_ok(n)]
         if not ok:
             return self.gen_read_dump(rng) if self.dumps else None
-        return {"op": "reread", "reader": rng.choice(ok)}
+        name = rng.choice(ok)
+        op = {"op": "reread", "reader": name}
+        rd, path, kind, opts = self.readers[name]
+        if kind in ("center", "vector") and rng.random() < 0.6:
+            # between two reads the client changes the options of its long-lived reader: the
+            # object it passed (held by the reader by reference) edited in place, or a new one assigned
+            d = self.dumps[path]
+            how = rng.choice(["inplace", "assign"])
+            if kind == "center":
+                keys = sorted(opts)
+                if rng.random() < 0.7:
+                    new = {str(k): rng.randint(1, 9) for k in keys}            # same keys, other labels
+                else:
+                    new = self.gen_read_center(rng)["moltypes"] if path in self.dumps else {str(k): 1 for k in keys}
+                op["edit"] = {"how": how, "moltypes": new}
+            else:
+                ncols = 2 + d["ndim"] + len(d["names"])
+                k = len(opts) if rng.random() < 0.7 else rng.randint(1, 3)
+                op["edit"] = {"how": how, "cols": [rng.randint(3, ncols) for _ in range(k)]}
+        return op
 
     def _reread_ok(self, name):
-        rd, path = self.readers[name]
+        rd, path, _kind, _opts = self.readers[name]
         if path.endswith(".gsd"):
             h = self.hoomd.get(path)
             return h is not None and h["recipe"]["ndim"] == rd.ndim and (h["dcd"] or rd.filetype.name != "GSD_DCD")
-        return path in self.dumps
+        return path in self.dumps and self.dumps[path]["ndim"] == rd.ndim
 
     def gen_read_vector(self, rng):
         p = self._some_dump(rng)
@@ -417,7 +437,7 @@ class World(WorldBase):
         ncols = 2 + d["ndim"] + len(d["names"])
         k = rng.randint(1, 3)
         cols = [rng.randint(3, ncols) for _ in range(k)]
-        return {"op": "read_vector", "path": p, "cols": cols, "via": rng.choice(["DumpReader", "wrapper"])}
+        return {"op": "read_vector", "path": p, "cols": cols, "via": rng.choice(["DumpReader", "wrapper", "keep"])}
 
     def gen_read_additions(self, rng):
         p = self._some_dump(rng, lambda d: d["const_n"])
@@ -435,7 +455,7 @@ class World(WorldBase):
         if rng.random() < 0.2:
             keys.append(K + 3)                       # a key no atom has
         mol = {str(k): rng.randint(1, 9) for k in keys}
-        return {"op": "read_center", "path": p, "moltypes": mol, "via": rng.choice(["DumpReader", "wrapper"])}
+        return {"op": "read_center", "path": p, "moltypes": mol, "via": rng.choice(["DumpReader", "wrapper", "keep"])}
 
     def gen_hoomd(self, rng):
         dcd = rng.random() < 0.5
@@ -448,6 +468,7 @@ class World(WorldBase):
         return {"ndim": rng.choice([2, 3]), "N": rng.randint(1, 10), "T": rng.randint(1, 5),
                 "K": rng.randint(1, 4), "nvary": (not dcd) and rng.random() < 0.3, "grow": (not dcd) and rng.random() < 0.15,
                 "share_typeid": rng.random() < 0.4, "boxvary": rng.random() < 0.3,
+                "tid_dtype": rng.choice(["uint32", "uint32", "uint32", "int32", "int32", "int64", "uint8"]),
                 "subseed": rng.randrange(1 << 40)}
 
     def gen_hoomd_write(self, rng):
@@ -689,7 +710,7 @@ class World(WorldBase):
             if op["via"] == "keep" and not failed:
                 name = f"r{self.next_r}"
                 self.next_r += 1
-                self.readers[name] = (rd, op["path"])
+                self.readers[name] = (rd, op["path"], "dump", None)
         if failed:
             return "failed by fault"
         self._judge_dump(snaps, d, tag)
@@ -705,7 +726,7 @@ class World(WorldBase):
     def do_reread(self, op):
         if op["reader"] not in self.readers:
             raise Refuse("no reader")
-        rd, path = self.readers[op["reader"]]
+        rd, path, kind, opts = self.readers[op["reader"]]
         if path in self.hoomd or path.endswith(".gsd"):
             h = self.hoomd.get(path)
             dcd = rd.filetype.name == "GSD_DCD"
@@ -718,11 +739,43 @@ class World(WorldBase):
             self._judge_hoomd(rd.snapshots, pristine, xyz0, h["recipe"]["ndim"], dcd, ("gsd-dcd" if dcd else "gsd") + "-file")
             return f"{path} re-read through {op['reader']}"
         d = self._frames(path)
+        if d["ndim"] != rd.ndim:
+            raise Refuse("dump rewritten in another dimension than the reader was built for")
+        ed = op.get("edit")
+        if ed and kind in ("center", "vector"):
+            if kind == "center":
+                new = {int(k): int(v) for k, v in ed["moltypes"].items()}
+                if ed["how"] == "inplace":
+                    if sorted(new) == sorted(opts):
+                        for k in opts:
+                            opts[k] = new[k]             # values only: the dict keeps its keys and their order
+                    else:
+                        opts.clear()
+                        opts.update(new)
+                else:
+                    opts = new
+                    object.__setattr__(rd, "moltypes", opts)
+            else:
+                new = [int(c) for c in ed["cols"]]
+                if ed["how"] == "inplace":
+                    opts[:] = new
+                else:
+                    opts = new
+                    object.__setattr__(rd, "columnsids", opts)
+            self.readers[op["reader"]] = (rd, path, kind, opts)
+            self.ctx.probe(f"reader_options_edited_{ed['how']}")
+        if kind == "vector" and max(opts) > 2 + d["ndim"] + len(d["names"]):
+            raise Refuse("column out of range for the file as it is now")
         _, failed = self._read(op, rd.read_onefile, "reread")
         if failed:
             return "failed by fault"
-        self._judge_dump(rd.snapshots, d, "reread")
-        self.ctx.probe("long_lived_reader_reread")
+        if kind == "center":
+            self._judge_center(rd.snapshots, d, dict(opts), "reread")
+        elif kind == "vector":
+            self._judge_vector(rd.snapshots, d, list(opts), "reread")
+        else:
+            self._judge_dump(rd.snapshots, d, "reread")
+        self.ctx.probe("long_lived_reader_reread" + ("" if kind == "dump" else "_" + kind))
         return f"{op['reader']} {path} {len(d['frames'])} frames"
 
     def do_read_vector(self, op):
@@ -740,8 +793,17 @@ class World(WorldBase):
             rd = DumpReader(op["path"], ndim=ndim, filetype=DumpFileType.LAMMPSVECTOR, columnsids=cols)
             _, failed = self._read(op, rd.read_onefile, tag)
             snaps = rd.snapshots
+            if op["via"] == "keep" and not failed:
+                name = f"r{self.next_r}"
+                self.next_r += 1
+                self.readers[name] = (rd, op["path"], "vector", cols)      # cols: the client's own list, held by the reader
         if failed:
             return "failed by fault"
+        self._judge_vector(snaps, d, cols, tag)
+        return f"{op['path']} cols={cols}"
+
+    def _judge_vector(self, snaps, d, cols, tag):
+        ndim = d["ndim"]
         for t, s, w in self._check_loop(snaps, d, tag):
             want = np.zeros((w["n"], len(cols)))
             for toks in w["rows"]:
@@ -753,7 +815,6 @@ class World(WorldBase):
             if s.nparticle != w["n"]:
                 raise Violation(f"C19/loop-nparticle:{tag}", f"frame {t}: {s.nparticle} vs {w['n']}")
             self._check_box(s, w, t, tag, ndim)
-        return f"{op['path']} cols={cols}"
 
     def do_read_additions(self, op):
         from PyMatterSim.reader.lammps_reader_helper import read_additions
@@ -784,11 +845,21 @@ class World(WorldBase):
         if op["via"] == "wrapper":
             snaps, failed = self._read(op, lambda: read_lammps_centertype_wrapper(op["path"], ndim, dict(mol)), tag)
         else:
-            rd = DumpReader(op["path"], ndim=ndim, filetype=DumpFileType.LAMMPSCENTER, moltypes=dict(mol))
+            mine = dict(mol)                                  # the client's own dict, held by the reader
+            rd = DumpReader(op["path"], ndim=ndim, filetype=DumpFileType.LAMMPSCENTER, moltypes=mine)
             _, failed = self._read(op, rd.read_onefile, tag)
             snaps = rd.snapshots
+            if op["via"] == "keep" and not failed:
+                name = f"r{self.next_r}"
+                self.next_r += 1
+                self.readers[name] = (rd, op["path"], "center", mine)
         if failed:
             return "failed by fault"
+        self._judge_center(snaps, d, mol, tag)
+        return f"{op['path']} map={mol}"
+
+    def _judge_center(self, snaps, d, mol, tag):
+        ndim = d["ndim"]
         for t, s, w in self._check_loop(snaps, d, tag):
             sel = sorted((int(toks[0]), toks) for toks in w["rows"] if int(toks[1]) in mol)
             want_types = [mol[int(toks[1])] for _, toks in sel]
@@ -808,7 +879,6 @@ class World(WorldBase):
             self._check_box(s, w, t, tag, ndim)
             if len(sel) == 0:
                 self.ctx.probe("center_frame_without_match")
-        return f"{op['path']} map={mol}"
 
     def _judge_hoomd(self, res, pristine, xyz, ndim, dcd, tag):
         if res is None or res.nsnapshots != len(pristine) or len(res.snapshots) != len(pristine):
@@ -902,7 +972,7 @@ class World(WorldBase):
             if op["via"] == "keep" and not failed:
                 name = f"r{self.next_r}"
                 self.next_r += 1
-                self.readers[name] = (rd, op["path"])
+                self.readers[name] = (rd, op["path"], "hoomd", None)
         if failed:
             return "failed by fault"
         self._judge_hoomd(snaps, pristine, xyz0, ndim, op["dcd"], tag + "-file")
